@@ -182,6 +182,22 @@ theorem prog_exportAbs (q : Rat → Int) (mpq : Nat) (parts : List PPart) :
     · rw [List.forall₂_map_right_iff]
       exact List.forall₂_same.mpr fun tr _ => key tr
 
+/-- a statement about every file track: the first holds `set_tempo` and then the bucket-sorted messages of
+    the smallest used track number, the others the bucket-sorted messages of theirs -/
+theorem forall₂_exportAbs (P : Nat → Track → Prop) (q : Rat → Int) (mpq : Nat) (parts : List PPart)
+    (h0 : ∀ tr, P tr ((0, Ev.tempo mpq) :: trackAbs (insertAll q parts) tr))
+    (h : ∀ tr, P tr (trackAbs (insertAll q parts) tr)) :
+    List.Forall₂ P (usedTracks q parts) (exportAbs q mpq parts) := by
+  unfold exportAbs usedTracks
+  dsimp only
+  generalize uniqueSorted ((insertAll q parts).map (·.1)) = ks
+  cases ks with
+  | nil => exact List.Forall₂.nil
+  | cons t0 ts =>
+    refine List.Forall₂.cons (h0 t0) ?_
+    rw [List.forall₂_map_right_iff]
+    exact List.forall₂_same.mpr fun tr _ => h tr
+
 -- ------------------------------------------------------------------ saving and loading back
 
 theorem map_toAbs_toDelta (ts : List Track) : (ts.map toDelta).map toAbs = ts := by
@@ -221,6 +237,15 @@ theorem sel_file (g : Ev → Option β) (h : g Ev.eot = none) (q : Rat → Int) 
   | true =>
     simp only [if_true, List.flatMap_cons, List.flatMap_nil, List.append_nil]
     exact (sel_mergeAbs g h _).trans hsave
+
+/-- whole file, any merging: what a selector reads is what the performance has on the used tracks -/
+theorem sel_file_perf (g : Ev → Option β) (heot : g Ev.eot = none) (hprog : ∀ ch pr, g (Ev.program ch pr) = none)
+    (htempo : ∀ m, g (Ev.tempo m) = none) (q : Rat → Int) (mpq : Nat) (ms ml : Bool) (parts : List PPart) :
+    ((loaderTracks ml ((savedAbs q mpq ms parts).map toDelta)).flatMap (sel g)).Perm
+      ((usedTracks q parts).flatMap fun tr => parts.flatMap fun p => evI g tr (partEvents q p)) := by
+  refine (sel_file g heot q mpq ms ml parts).trans ?_
+  refine (flatMap_perm_of_forall₂ _ _ _ _ ?_).symm
+  exact (sel_exportAbs g hprog htempo q mpq parts).imp (fun _ _ h => h.symm)
 
 /-- the only tempo event of the written file is the exporter's own, at tick 0 -/
 theorem tempos_exportAbs (q : Rat → Int) (mpq : Nat) (parts : List PPart) (hne : usedTracks q parts ≠ []) :
